@@ -26,3 +26,16 @@ package consoleui
 //@   ensures[lines-fit] wrapped("lines", result, s, ind, chars)
 //@   ensures[all-characters-in-order] wrapped("content", result, s, ind, chars)
 //@   ensures[words-split-only-when-too-long] wrapped("words", result, s, ind, chars)
+
+// Property C22: a console session is a script of input lines (a concrete prefix
+// that reaches a mode and state, then a line of literal text and arbitrary
+// bytes); ui_of_session() is the UI the real constructors build over a
+// program of the corpus, with the disassembler mode on top. Run must not reach
+// any panic: the safety obligations of every function it executes (index,
+// slice, nil, type assertion, division, allocation, explicit panic) are the
+// obligations of this contract; the path ends where the script does.
+
+//@ func (*UI).Run
+//@   enum s in SESSIONS
+//@   input:c ui_of_session()
+//@   requires session_typed()
